@@ -8,7 +8,7 @@ from types import SimpleNamespace
 
 from .. import dag, effects as E
 from ..arr import Arr
-from ..pe import PE, Obj, PERaise
+from ..pe import PE, Obj, PEError, PERaise
 from ..src import load
 
 LEVEL = "proof"
@@ -167,10 +167,19 @@ def run(chk):
                    f"above, only the very first node is included, through an absolute tolerance of machine-epsilon size", where=fev.where,
                    instance=str(xv), how="PE")
     flx = src.func(f"{IP}.log_evaluate_x")
-    got = pe.call(flx.qname, [dag.sym("X"), Arr.from_nested([[dag.sym("lo"), dag.sym("hi"), dag.sym("c0")]])]) if False else None
-    calls = [ast.unparse(n) for n in ast.walk(flx.node) if isinstance(n, ast.Call)]
-    chk.decide(any(s.startswith("np.log(x)") for s in calls) and any(s.startswith("evaluate_x(x, area_list)") for s in calls),
-               "evaluation-is-half-open", flx.qname, "log_evaluate_x no longer evaluates the polynomial at log x", where=flx.where, instance="log")
+    pel = mk_pe(src)
+    seen = []
+    areas_in = Arr.from_nested([[dag.sym("lo"), dag.sym("hi"), dag.sym("c0")]])
+    pel.overrides[fev.qname] = lambda p, a, k: seen.append((a[0], a[1])) or dag.sym("EVAL")
+    try:
+        got = pel.call(flx.qname, [dag.sym("X"), areas_in])
+    except (PERaise, PEError) as e:
+        got = None
+        seen.append(("raises", str(e)))
+    chk.decide(got is dag.sym("EVAL") and len(seen) == 1 and seen[0][0] is dag.fn("log", dag.sym("X")) and seen[0][1] is areas_in,
+               "evaluation-is-half-open", flx.qname, f"log_evaluate_x(X, areas) is not evaluate_x(log X, areas): evaluate_x received "
+               f"{[dag.short(dag.tonode(a)) if not isinstance(a, (str, Arr)) else type(a).__name__ for a, _ in seen]}", where=flx.where, instance="log",
+               how="PE with recording evaluate_x")
     # ---- (4) re-interpolation + tolerance rule -------------------------------------------------------------------------------------
     fgi = disp.methods["get_interpolation"]
     pe = mk_pe(src)
@@ -196,8 +205,8 @@ def run(chk):
             if not q.startswith(mod + "."):
                 continue
             for cl in src.calls_in(f):
-                d_ = src.dotted(cl.func) or ""
-                if d_ in ("np.allclose", "np.isclose", "numpy.allclose", "numpy.isclose"):
+                d_ = src.resolve_name(f.module, src.dotted(cl.func) or "") or ""
+                if d_ in ("numpy.allclose", "numpy.isclose"):
                     txt = " ".join(ast.unparse(a) for a in cl.args)
                     if any(tok in txt for tok in ("raw", "xgrid", "targetgrid", "xmin", "xmax", "grid")):
                         n_tol += 1
